@@ -130,8 +130,11 @@ struct Task {
     uint64_t deadline = 0;
     bool timed_out = false;
     bool spinning = false;
-    const void* spin_addr = nullptr;
-    uint64_t spin_val = 0;
+    // recent (address, value) observations made without anybody writing in between: a spin loop may poll several
+    // locations in turn (e.g. `while (root == nullptr) { if (!lock.try_start_write()) continue; ...}`)
+    const void* spin_addr[4] = {nullptr, nullptr, nullptr, nullptr};
+    uint64_t spin_val[4] = {0, 0, 0, 0};
+    int spin_pos = 0;
     uint64_t spin_epoch = 0;
     int spin_cnt = 0;
     int nopreempt = 0;
@@ -341,6 +344,11 @@ static Task* pick(Task* me) {
         return next;
     }
     if (pn == 1) return pool[0];
+    if (nns == 0) {
+        // every enabled task is flagged as spinning (the flag is only a heuristic and may be stale on a task that is
+        // doing plain work while holding a lock): pick uniformly so that whoever can make progress eventually runs
+        return pool[g_rng_sched.below(pn)];
+    }
     switch (g_strategy) {
         case ST_RW: {
             if (me_in_pool && !g_rng_sched.coin_shift(g_rw_shift)) return me;
@@ -506,14 +514,21 @@ static inline void solo_observe(const void* addr, uint64_t val) {
 
 // observation made by an atomic read (or an RMW that did not change memory)
 static inline void spin_observe(Task* me, const void* addr, uint64_t val) {
-    if (me->spin_addr == addr && me->spin_val == val && me->spin_epoch == g_write_epoch) {
-        if (++me->spin_cnt >= 3) spin_yield(me);
-    } else {
-        me->spin_addr = addr;
-        me->spin_val = val;
+    if (me->spin_epoch != g_write_epoch) {
         me->spin_epoch = g_write_epoch;
         me->spin_cnt = 0;
+        me->spin_pos = 0;
+        for (int i = 0; i < 4; i++) me->spin_addr[i] = nullptr;
     }
+    for (int i = 0; i < 4; i++)
+        if (me->spin_addr[i] == addr && me->spin_val[i] == val) {
+            if (++me->spin_cnt >= 3) spin_yield(me);
+            return;
+        }
+    me->spin_addr[me->spin_pos] = addr;
+    me->spin_val[me->spin_pos] = val;
+    me->spin_pos = (me->spin_pos + 1) & 3;
+    me->spin_cnt = 0;
 }
 
 // ------------------------------------------------------------------ thread pool
@@ -591,7 +606,7 @@ static Task* spawn(std::function<void()> fn) {
     t->deadline = 0;
     t->spinning = false;
     t->spin_cnt = 0;
-    t->spin_addr = nullptr;
+    t->spin_epoch = 0;
     t->nopreempt = 0;
     t->team = nullptr;
     t->team_tid = 0;
@@ -1247,6 +1262,8 @@ static inline void plain_access() {
     Task* me = t_self;
     if (me == nullptr || g_live <= 1 || me->nopreempt || me->in_rt || g_aborting) return;
     if (++me->plain_ctr % (uint64_t)g_plain_period != 0) return;
+    // a task that is not spinning on an atomic and executes ordinary memory accesses is making progress
+    if (!me->spinning) progress();
     sched_point(me, K_PLAIN);
 }
 // schedule point requested by instrumented code (never from inside the runtime itself)
@@ -1262,21 +1279,45 @@ static inline void volatile_access() {
     tsp(K_VOLATILE);
 }
 
-#define PLAIN(n)                                              \
+extern "C++" {
+// a volatile read is a schedule point *and* a spin observation (the Brie's `while (version % 2)` loops read volatile fields);
+// the callback runs before the access, so the value the access is about to see is read here (no switch in between)
+template <typename T>
+static inline void volatile_read(void* a) {
+    tsp(K_VOLATILE);
+    Task* me = t_self;
+    if (observing(me)) {
+        uint64_t v = (uint64_t) * (volatile T*)a;
+        spin_observe(me, a, v);
+    }
+}
+static inline void volatile_write() {
+    tsp(K_VOLATILE);
+    if (g_live > 1) effective_write();
+}
+}
+#define PLAIN(n, T)                                          \
     void __tsan_read##n(void*) { plain_access(); }           \
     void __tsan_write##n(void*) { plain_access(); }          \
     void __tsan_unaligned_read##n(void*) { plain_access(); } \
     void __tsan_unaligned_write##n(void*) { plain_access(); } \
-    void __tsan_volatile_read##n(void*) { volatile_access(); } \
-    void __tsan_volatile_write##n(void*) { volatile_access(); } \
-    void __tsan_unaligned_volatile_read##n(void*) { volatile_access(); } \
-    void __tsan_unaligned_volatile_write##n(void*) { volatile_access(); }
-PLAIN(1)
-PLAIN(2)
-PLAIN(4)
-PLAIN(8)
-PLAIN(16)
+    void __tsan_volatile_read##n(void* a) { volatile_read<T>(a); } \
+    void __tsan_volatile_write##n(void*) { volatile_write(); } \
+    void __tsan_unaligned_volatile_read##n(void* a) { volatile_read<T>(a); } \
+    void __tsan_unaligned_volatile_write##n(void*) { volatile_write(); }
+PLAIN(1, uint8_t)
+PLAIN(2, uint16_t)
+PLAIN(4, uint32_t)
+PLAIN(8, uint64_t)
 #undef PLAIN
+void __tsan_read16(void*) { plain_access(); }
+void __tsan_write16(void*) { plain_access(); }
+void __tsan_unaligned_read16(void*) { plain_access(); }
+void __tsan_unaligned_write16(void*) { plain_access(); }
+void __tsan_volatile_read16(void*) { volatile_access(); }
+void __tsan_volatile_write16(void*) { volatile_write(); }
+void __tsan_unaligned_volatile_read16(void*) { volatile_access(); }
+void __tsan_unaligned_volatile_write16(void*) { volatile_write(); }
 void __tsan_read_range(void*, unsigned long) {
     plain_access();
 }
